@@ -261,8 +261,11 @@ def main():
     (OUT / "evidence").mkdir(parents=True, exist_ok=True)
 
     results = []
+    only = os.environ.get("VERIF_STAGES")  # debugging aid: run only stages whose variant contains this text
     for stage in stages_of(cfg):
         if tier not in stage:
+            continue
+        if only and only not in stage.get("variant", "chk"):
             continue
         results.append(run_stage(pid, stage, tier, seed, logdir))
 
